@@ -1,6 +1,7 @@
 package main
 
 import (
+	"strconv"
 	"go/token"
 	"fmt"
 	"go/types"
@@ -96,6 +97,10 @@ func (x *Exec) topEnv(st *State, where string) *Env {
 				env.vars[c.Name] = Sc{x.s.declare("undef.capture:"+c.Name, "Int"), "Int"}
 			} else if c.Kind == "err" {
 				env.vars[c.Name] = Err{"0", "0"} // the call did not happen: no error from it
+			} else if t := x.captureArgType(c); t != nil && !isByteSlice(t) {
+				// a captured argument of another type: undefined value of that type when the call did not happen
+				env.vars[c.Name] = x.s.symVal("undef.capture:"+c.Name, t)
+				env.typs[c.Name] = t
 			} else {
 				env.vars[c.Name] = Slice{Off: "0", Len: "0", Cap: "0"}
 			}
@@ -103,6 +108,9 @@ func (x *Exec) topEnv(st *State, where string) *Env {
 	}
 	for n, v := range st.caps {
 		env.vars[n] = v
+		if t, ok := x.capTypes[n]; ok {
+			env.typs[n] = t
+		}
 	}
 	env.cur, env.old = st, x.entry
 	return env
@@ -461,4 +469,21 @@ func blockPos(b *ssa.BasicBlock) token.Pos {
 		}
 	}
 	return best
+}
+
+// captureArgType: static type of a captured whole argument ("<index>"), nil otherwise.
+func (x *Exec) captureArgType(c Capture) types.Type {
+	idx, err := strconv.Atoi(c.What)
+	if err != nil {
+		return nil
+	}
+	fn := x.s.Prog.Func(c.Callee)
+	if fn == nil || idx >= len(fn.Params) {
+		return nil
+	}
+	if x.capTypes == nil {
+		x.capTypes = map[string]types.Type{}
+	}
+	x.capTypes[c.Name] = fn.Params[idx].Type()
+	return fn.Params[idx].Type()
 }
